@@ -145,6 +145,7 @@ def run_exhaustive(case, ctx, mon):
 def gen_cases(ctx):
     rng = ctx.rng("cases")
     yield from gen_exhaustive(rng, ctx)
+    yield H.zipf_case(rng, ctx)
     # scripted: an all-NUL key holding 97% of the stream (a packed integer 0) must be reported first
     yield {"type": "history", "cfg": {"kind": "hh", "width": 2, "depth": 2, "max_key_len": 4}, "n": 1,
            "events": [[0, ["add", "00000000", 97]], [0, ["add", "61", 2]], [0, ["add", "", 1]]]}
@@ -153,7 +154,19 @@ def gen_cases(ctx):
         yield H.gen_history_case(rng, ctx, big=0.01, zero=0.05)
 
 
+def run_zipf(case, ctx, mon):
+    s, ghost, cells, ids = H.build_zipf(case, mon)
+    cfg = case["cfg"]
+    # check the 60 heaviest identities (the bound is positive only for keys that dominate a cell)
+    top = [k for k, _ in ghost.most_common(60)]
+    n = check_sketch(mon, s, ghost, cells, cfg["depth"], cfg["width"], top, cfg, "zipf-final")
+    mon.count("zipf_realistic_cases")
+    mon.nontrivial(n > 0)
+
+
 def run_case(case, ctx, mon):
+    if case["type"] == "zipf":
+        return run_zipf(case, ctx, mon)
     if case["type"] == "history":
         run_history(case, ctx, mon)
     else:
